@@ -18,12 +18,12 @@ CHECKS = {
  "C06": dict(
    technique="ground-truth-by-construction monitor: every documented operation of both spec versions compared with the contract (parameters, requiredness, bodies, responses) derived from the generated method signature",
    text="Runtime monitoring of the real CLI on 80 (thorough 800) generated projects x 2 versions, ~850 operations per quick run over >400 distinct signature shapes: parameter lists over all five locations plus context, pointer x location x validator requiredness matrix, wire-name aliases, enums/aliases/query slices, JSON and form bodies, every return shape, custom error types, @Response/@ErrorResponse. Oracle = descriptor-derived contract (DESIGN A.3-A.5) read with our own JSON reader. Exploration only. Also generated: grouped parameter fields (a, b, c T followed by an own field of the same type), repeated @ErrorResponse codes in front of further codes, boundary constants of every integer width in enums. User types named context.Context in look-alike packages are generated too (a user struct named Time exposed known finding KF-C06-01).",
-   note="Trusts the type->schema table and the requiredness rule as transcribed from the statement; validation keywords inside schemas are C11's subject, not judged here.",
+   note="Trusts the type->schema table and the requiredness rule as transcribed from the statement; validation keywords inside schemas are C11's subject, not judged here. One known finding (a user struct named Time documented as date-time, KF-C06-01) is cause-attested from the descriptor.",
    ref="DESIGN.md §5 C06"),
  "C07": dict(
    technique="ground-truth-by-construction monitor: components.schemas of both spec versions compared with the reachability closure and per-declaration schemas derived from the generated type graph",
    text="Runtime monitoring of the real CLI on 70 (thorough 600) generated type graphs x 2 versions: self-recursive and acyclic struct graphs over several packages, embedded structs (allOf), enums of eight basic kinds incl. '='-style, aliases, nested slices, maps, time/bytes/any, unexported and json:\"-\" fields, decoy constants and unreachable decoy types, usage-site validators on enum-typed fields (the non-interference clause: the shared component must still list all declared constants). Oracle = declarations in the descriptor (DESIGN A.4/A.6). Exploration only. Also: same-named types in several packages (known finding KF-C07-01), boundary enum constants (int64/uint64 extremes, read without float rounding) and a metamorphic stage - every 4th project is a clone of its predecessor without usage-site @Deprecated / descriptions / validators, and the components of the field types must be the same JSON in both. The metamorphic stage also decorates time.Time / []byte fields of one of two structs; error models may embed another struct with error last.",
-   note="Presence of a component for a type reachable only from hidden routes, and of Rfc7807Error when no route returns plain error, is not judged; enum values compared by printed form.",
+   note="Presence of a component for a type reachable only from hidden routes, and of Rfc7807Error when no route returns plain error, is not judged; enum values compared by printed form. One known finding (same-named types of different packages share one component, KF-C07-01) is cause-attested.",
    ref="DESIGN.md §5 C07"),
  "C08": dict(
    technique="independent structural validator (encoding/json only) run over every spec file found after every CLI run, accepted or not, on projects aimed at the rejection boundary",
@@ -85,7 +85,7 @@ CHECKS["C20"] = dict(
 
 CHECKS["C09"] = dict(
    technique="compiler-as-oracle monitor: every routes file left behind by a successful `generate routes` run for each of the five engines and three flag combinations is parsed, compiled with `go build` against the engine, the user's controller packages and an instrumented authorization package, and checked against gofmt",
-   text="Runtime monitoring of the real CLI plus the Go toolchain on 16 (thorough 120) generated projects x 5 engines: hostile identifier names (template locals, package names, predeclared identifiers, colliding lower-camel forms), same-base-name types from several packages, map/time/any/[]byte/nested-slice/[]*T values, custom error types by value and pointer, security, experimental flags. Failures are attributed to a cause from the descriptor and the first compiler diagnostics so that the three known findings cannot hide an unrelated compile or formatting defect. Exploration only. Also: same-named enum/struct types from two packages used under the same parameter name, user types named context.Context / time.Time in packages named alike, hyphenated and non-canonical wire names, grouped parameter fields, a body model using the generated enum validator tag. Every 8th project spells one verb in lower case (must be rejected, not half accepted).",
+   text="Runtime monitoring of the real CLI plus the Go toolchain on 16 (thorough 120) generated projects x 5 engines: hostile identifier names (template locals, package names, predeclared identifiers, colliding lower-camel forms), same-base-name types from several packages, map/time/any/[]byte/nested-slice/[]*T values, custom error types by value and pointer, security, experimental flags. Failures are attributed to a cause from the descriptor and the first compiler diagnostics so that the four known findings cannot hide an unrelated compile or formatting defect. Exploration only. Also: same-named enum/struct types from two packages used under the same parameter name, user types named context.Context / time.Time in packages named alike, hyphenated and non-canonical wire names, grouped parameter fields, a body model using the generated enum validator tag. Every 8th project spells one verb in lower case (must be rejected, not half accepted).",
    note="go build and go/format are trusted; the gofmt finding is only matched when the file differs from its gofmt form solely by removed blank lines, in-line alignment and order inside the merged import block.",
    ref="DESIGN.md §5 C09")
 
